@@ -29,6 +29,15 @@ def pred_closure(fam):
     return "|v| *v != 3"
 
 
+def cval_fn(fam, gen, arg):
+    """the catalogue custom validator: rejects exactly the value rendered for `default = invalid` (0 / 0.0 / "" / [])."""
+    if fam == "int":
+        return "const fn cval%s(v: %s) -> Result<(), CErr> { if *v == 0 { Err(CErr::Bad) } else { Ok(()) } }" % (gen, arg)
+    if fam == "float":
+        return "const fn cval%s(v: %s) -> Result<(), CErr> { if *v == 0.0 { Err(CErr::Bad) } else { Ok(()) } }" % (gen, arg)
+    return "fn cval%s(v: %s) -> Result<(), CErr> { if v.is_empty() { Err(CErr::Bad) } else { Ok(()) } }" % (gen, arg)
+
+
 def custom_items(src):
     fam, ty = src["fam"], src["ty"]
     arg = "&str" if fam == "string" else "&%s" % ty
@@ -37,7 +46,7 @@ def custom_items(src):
         gen = "<%s>" % ", ".join(src["tparams"])
     return ("#[derive(Debug, Clone, PartialEq, Eq)]\npub enum CErr { Bad }\n"
             "impl ::core::fmt::Display for CErr { fn fmt(&self, f: &mut ::core::fmt::Formatter<'_>) -> ::core::fmt::Result { write!(f, \"bad\") } }\n"
-            "const fn cval%s(_v: %s) -> Result<(), CErr> { Ok(()) }\n" % (gen, arg))
+            "%s\n" % cval_fn(fam, gen, arg))
 
 
 def render_val_item(src, it, items, consts):
